@@ -155,6 +155,17 @@ CHECKS = {
         BASE_NOTE + 'Default pandas splitters/stackers/reducers are not exercised.',
         'DESIGN.md section 5 C12',
     ),
+    'C08': (
+        'Rocq proof of structural equality on the skeleton of DSL objects (rose-tree reflection) + pairwise differential correspondence incl. cross-process pickling',
+        'Theorems (Properties/C08.v) for objects of any size and nesting: the implementation equality (after the structural-equality '
+        'fix) is exactly structural identity, equal objects hash equal, set/dict lookups never confuse different objects and always '
+        'find identical ones, identity survives the pickle protocol. Correspondence: pairs built twice / differing in exactly one '
+        'leaf, including literals whose Python hashes collide (-1/-2, 0/2^61-1, 1/2^61), with unrelated objects created first: ==, '
+        'hash, set size, dict lookup, pickling in-process and into a fresh interpreter with another hash seed, and cached attribute '
+        'access returning each statement its own parts.',
+        BASE_NOTE + 'Kinds and schemas are compared through the objects embedding them; accidental 64-bit hash collisions of unequal objects are allowed.',
+        'DESIGN.md section 5 C08',
+    ),
 }
 NOT_YET = 'model and theorems not built yet in this round (planned, see DESIGN.md section 5/9)'
 
